@@ -36,6 +36,8 @@ SUBJECTS = [
     'edb.server.compiler.compiler._compile_ql_sess_state',
     'edb.server.compiler.compiler._compile_dispatch_ql',
     'edb.server.compiler.compiler._make_query_unit',
+    'edb.server.compiler.compiler.Compiler.compile_in_tx',
+    'edb.server.compiler.compiler.Compiler._try_compile_rollback',
 ]
 
 EMPTY = immutables.Map()
